@@ -6,6 +6,7 @@ import alv
 from alv import log
 sys.path.insert(0, os.path.join(alv.HERE, "gen"))
 import cases
+import x86ref
 
 PROBES = [b"mov rax, 0x1", b"mov rax, 0x0000000000000001", b"lea r15, [rax+rsp]", b"lea r15, [2*rax]"]
 
@@ -1516,6 +1517,191 @@ def check_C11(cx):
 
 
 
+# ------------------------------------------------------------------------------------------
+# C01–C05 — the emitted bytes decode (reference decoder AL.Spec.X86) to the written instruction
+# ------------------------------------------------------------------------------------------
+
+def supported_forms():
+    """frozen supported list: {mnemonic: set of operand-kind strings}"""
+    sup = {}
+    txt = open(os.path.join(alv.LEAN, "AL", "Spec", "Supported.lean")).read()
+    for m in re.finditer(r"\(\[[0-9, ]*\] /- (\w+) -/, \[(.*)\]\)", txt[:txt.index("def acceptedButUndefined")]):
+        forms = ["".join(chr(int(x)) for x in f.split(",") if x.strip()) for f in re.findall(r"\[([0-9, ]*)\]", m.group(2))]
+        sup[m.group(1)] = set(forms)
+    return sup
+
+
+def enum_family(fam, level):
+    p = subprocess.run([alv.driver_path(), "enum", fam, str(level)], stdout=subprocess.PIPE, stderr=subprocess.PIPE)
+    items = collections.OrderedDict()
+    for l in p.stdout.decode().split("\n"):
+        if "\t" in l:
+            t, w = l.split("\t")
+            items.setdefault(t, w)
+    return items
+
+
+def pattern_of(want):
+    out = []
+    for x in want.split("#")[0].split()[1:]:
+        if "[" in x:
+            out.append(x[:x.index("[")])
+        elif ":" in x:
+            out.append(x.split(":")[0])
+        else:
+            out.append(re.sub(r"\d+$", "", x))
+    return " ".join(out)
+
+
+def equivalent_reading(text, want, got, nbytes):
+    """readings that are the written operation although the decoded tokens differ"""
+    w, parts = x86ref.parse_dec(want), got.split(" ; ")
+    if len(parts) != 1:
+        return False
+    g = x86ref.parse_dec(parts[0])
+    if g is None or g[2] != nbytes:
+        return False
+    if w[0] == "xchg" and g[0] == "xchg" and len(w[1]) == 2 and len(g[1]) == 2:
+        # xchg is symmetric
+        return all(x86ref.same_operand(a, b, True) for a, b in zip(w[1], reversed(g[1])))
+    if w[0] == "xchg" and g[0] == "nop" and len(w[1]) == 2 and w[1][0] == w[1][1] and w[1][0] in ("w0", "q0"):
+        # xchg ax, ax / xchg rax, rax change nothing (xchg eax, eax does: it clears the upper half)
+        return True
+    if w[0] == "mov" and g[0] == "mov" and len(w[1]) == 2 and len(g[1]) == 2 and w[1][0][0] == "q" and g[1][0] == "d" + w[1][0][1:]:
+        # mov r64, imm with imm <= 0xffffffff written to the 32-bit register: zero extension gives the same value (C11 says when)
+        a, b = w[1][1].split(":"), g[1][1].split(":")
+        return a[0] == "i64" and b[0] == "i32" and a[1] == b[1]
+    m = re.match(r"nop(\d+)$", text.strip())
+    if m and g[0] == "nop" and g[2] == int(m.group(1)):
+        return True
+    return False
+
+
+ENC = {
+    "C01": dict(fam="c01", quick=(14, 0), thorough=tuple(cases.OPTS), level=(0, 0),
+                rule="every instance of every integer entry of the reference opcode table whose operands are registers (all widths, r8-r15, "
+                     "ah/ch/dh/bh where encodable, all synonym mnemonics), the no-operand instructions and nop..nop11"),
+    "C02": dict(fam="c02", quick=(14, 2), thorough=(14, 2, 0, 12), level=(0, 2),
+                rule="every entry with a memory-capable operand over base x index x scale x displacement shapes (key registers none/rax/rsp/rbp/r12/"
+                     "r13/r15, both address sizes, disp8/disp32 boundaries of both signs; thorough: all 17x16x4x13x2 shapes for mov/lea/paddb/vaddpd), "
+                     "with and without size keyword and in both factor orders"),
+    "C03": dict(fam="c03", quick=(14, 0, 1), thorough=(14, 0, 1, 2, 13), level=(0, 1),
+                rule="every entry with an immediate over the boundary values of its operand size (0, 0x7f/0x80, 0xff/0x100, 0x7fff.., 0x7fffffff/"
+                     "0x80000000, 0xffffffff/0x100000000, their negatives), register and memory destinations, hex/decimal/negated spellings"),
+    "C04": dict(fam="c04", quick=(14,), thorough=(14, 0), level=(0, 1),
+                rule="every MMX/SSE/AVX/AVX2/BMI2/ADX entry over ALL register tuples of its register files (mm0-7, xmm/ymm0-15, 32/64-bit general "
+                     "registers) and memory forms over the key shapes"),
+    "C05": dict(fam="c05", quick=(14,), thorough=(14, 0), level=(0, 0),
+                rule="jmp/jcc/call/jrcxz/xbegin x {no keyword, short, long} x all d in -130..129 and the 16/32-bit boundaries, decimal and hex, all "
+                     "synonym spellings"),
+}
+
+
+def nop_items():
+    return collections.OrderedDict(("nop%d" % n if n > 1 else "nop", "nop #%d" % n) for n in range(1, 12))
+
+
+def check_enc(cx):
+    cfg = ENC[cx.prop]
+    quick = cx.tier == "quick"
+    thms = ["AL.Properties.%s.%s" % (cx.prop, t) for t in ENC_THEOREMS.get(cx.prop, [])]
+    info = stage_proofs(cx, "AL.Properties." + cx.prop, thms)
+    impl = build_impl(cx)
+    if not (info and impl):
+        return finish(cx, "")
+    items = enum_family(cfg["fam"], cfg["level"][0 if quick else 1])
+    if cx.prop == "C01":
+        items.update(nop_items())
+    cx.oblige("quantifier domain enumerated from the reference opcode table (%d distinct lines)" % len(items), len(items) > 100)
+    sup = supported_forms()
+    opts = cfg["quick"] if quick else cfg["thorough"]
+    texts = list(items)
+    keys = [(o, t.encode()) for o in opts for t in texts]
+    ops, out = tie_lines(cx, impl, keys, "%s family x %d option bytes (whole per-line pipeline)" % (cx.prop, len(opts)))
+    res = {}
+    for (o, l), ln in zip(keys, out):
+        p = ln.split()
+        res[(o, l)] = (p[0], p[2] if p[0] == "0" and len(p) > 2 else "-")
+    codes = sorted(set(b for rc, b in res.values() if rc == "0" and b != "-"))
+    rc, dec, err = alv.run_driver(alv.driver_path(), ["Q %s" % c for c in codes])
+    cx.oblige("reference decoder ran on %d distinct encodings" % len(codes), rc == 0 and len(dec) == len(codes), err[-400:])
+    if rc != 0 or len(dec) != len(codes):
+        return finish(cx, "")
+    decmap = dict(zip(codes, dec))
+    # the reference decoder itself against binutils' objdump (validation of the spec, not of the property)
+    od = x86ref.objdump([bytes.fromhex(c) for c in codes])
+    dis = collections.Counter()
+    disex = {}
+    for c, o in zip(codes, od):
+        r = x86ref.spec_vs_objdump(decmap[c], o)
+        if r:
+            k = re.sub(r"[0-9a-fx-]{3,}", "N", r.split(" (")[0])[:50]
+            dis[k] += 1
+            disex.setdefault(k, [c, decmap[c], o[0] if o else None])
+    cx.oblige("reference decoder agrees with objdump on %d encodings" % len(codes), not dis, json.dumps({k: [n, disex[k]] for k, n in dis.items()})[:1500])
+    # the property
+    groups = collections.OrderedDict()
+    nrej = nskip = nok = 0
+    covered = set()
+    for t in texts:
+        want = items[t]
+        mn = want.split()[0]
+        kinds = x86ref.kinds_of(want)
+        wmn = t.split()[0]
+        for o in opts:
+            rc, b = res[(o, t.encode())]
+            if rc != "0" or b == "-":
+                is_sup = kinds in sup.get(wmn, set())
+                exp_rej = False
+                if cx.prop == "C05":
+                    d = int(want.split(":")[1].split()[0])
+                    rel8only = mn in ("jrcxz",)
+                    exp_rej = (" short " in t and not -128 <= d <= 127) or (rel8only and not -128 <= d <= 127) or \
+                              ("short" in t and mn in ("call", "xbegin"))
+                if is_sup and not exp_rej:
+                    k = (mn, pattern_of(want), "rejected")
+                    groups.setdefault(k, []).append((t, o, "-", "-"))
+                    nrej += 1
+                else:
+                    nskip += 1
+                continue
+            covered.add((wmn, kinds))
+            if cx.prop == "C05" and " short " in t and not -128 <= int(want.split(":")[1].split()[0]) <= 127:
+                groups.setdefault((mn, pattern_of(want), "short accepted out of range"), []).append((t, o, b, decmap[b]))
+                continue
+            # the width of the displacement field is what the keyword asks for, whichever table entry the instance came from
+            # (call and xbegin have a rel32 form only, jrcxz a rel8 form only: a keyword cannot select anything there)
+            kw = (" short " in t or " long " in t) and mn not in ("call", "xbegin", "jrcxz")
+            want_k = re.sub(r"rel\d+:", "rel32:" if " long " in t else "rel8:", want) if kw else want
+            r = x86ref.compare(want_k, decmap[b], len(b) // 2, not kw)
+            if r and not equivalent_reading(t, want, decmap[b], len(b) // 2):
+                groups.setdefault((mn, pattern_of(want), r), []).append((t, o, b, decmap[b]))
+            else:
+                nok += 1
+    for (mn, pat, reason), exs in groups.items():
+        t, o, b, d = exs[0]
+        cx.violations.append({"kind": "encoding", "mnemonic": mn, "operands": pat, "reason": reason, "count": len(exs), "line": t, "opt": o,
+                              "bytes": b, "decoded": d, "written": items[t],
+                              "what": "the emitted bytes do not decode to the written instruction" if reason != "rejected" else
+                                      "a supported form over encodable operands is rejected"})
+    cx.count(len(keys), texts)
+    relevant = {(m, f) for m, fs in sup.items() for f in fs}
+    cx.dist = {"lines": len(texts), "option_bytes": list(opts), "accepted_and_correct": nok, "rejected_supported": nrej,
+               "rejected_not_supported_or_expected": nskip, "distinct_encodings": len(codes),
+               "supported_forms_exercised": len(covered & relevant), "violation_groups": len(groups)}
+    cx.cov["samples"] = [texts[0], texts[len(texts) // 3], texts[len(texts) // 2], texts[-1]]
+    cx.assumptions.append("binutils objdump is the second decoder the reference decoder is validated against; an instruction outside the reference "
+                          "table's subset would be reported as undecodable, never accepted")
+    return finish(cx, cfg["rule"] + "; each line assembled on the implementation under option bytes %s, its bytes decoded by the Lean reference "
+                  "decoder AL.Spec.X86.decode and compared with the written instruction (mnemonic class, every operand, operand sizes, address, "
+                  "immediate value after extension, displacement, total length = emitted length); distinct = distinct line texts" % (list(opts),),
+                  exhaustive=cx.prop in ("C01", "C04", "C05"))
+
+
+ENC_THEOREMS = {}
+
+
+
 def history_around(ops, idx):
     """the ops of the history that contains op number idx (a history starts at its first N op
     after an F op or at the beginning)"""
@@ -1528,7 +1714,7 @@ def history_around(ops, idx):
     return ops[start:end + 1]
 
 
-CHECKS = {"C12": check_C12, "C07": check_C07, "C06": check_C06, "C13": check_C13, "C14": check_C14, "C08": check_C08, "C15": check_C15, "C16": check_C16, "C10": check_C10, "C09": check_C09, "C11": check_C11}
+CHECKS = {"C12": check_C12, "C07": check_C07, "C06": check_C06, "C13": check_C13, "C14": check_C14, "C08": check_C08, "C15": check_C15, "C16": check_C16, "C10": check_C10, "C09": check_C09, "C11": check_C11, "C01": check_enc, "C02": check_enc, "C03": check_enc, "C04": check_enc, "C05": check_enc}
 
 
 def run_check(prop, tier, seed):
